@@ -242,6 +242,7 @@ type limits struct {
 func runOperator(o *opDef, n int, only int, lim limits, deadline time.Time) map[int]goRes {
 	res := map[int]goRes{}
 	hangs := 0
+	died := map[int]int{}
 	from := 0
 	if only >= 0 {
 		from = only
@@ -327,7 +328,7 @@ func runOperator(o *opDef, n int, only int, lim limits, deadline time.Time) map[
 				if verdict == "" {
 					verdict = "panic"
 				}
-				res[only] = goRes{Kind: verdict, Msg: "single evaluation did not complete"}
+				res[only] = goRes{Kind: verdict, Msg: "single evaluation did not complete: " + verdict}
 			}
 			return res
 		}
@@ -343,7 +344,14 @@ func runOperator(o *opDef, n int, only int, lim limits, deadline time.Time) map[
 			case "env_timeout":
 				res[cur] = goRes{Kind: "env_timeout", Msg: "no verdict: machine too slow"}
 			default:
-				res[cur] = goRes{Kind: "panic", Msg: "child process died (fatal error outside recover)"}
+				// the process died without a verdict: could be the environment (OOM killer); only a death that
+				// repeats on the same input is attributed to the input
+				died[cur]++
+				if died[cur] < 2 {
+					from = cur
+					continue
+				}
+				res[cur] = goRes{Kind: "panic", Msg: "child process died twice on this input (fatal error outside recover)"}
 			}
 			from = cur + 1
 			continue
@@ -786,6 +794,53 @@ func TestCheck(t *testing.T) {
 		if len(bad) > 0 {
 			t.Fatalf("the harness generated expressions SANY rejects (harness bug, not a verdict):\n%s", strings.Join(bad, "\n"))
 		}
+		// every reported witness is evaluated 4 more times in fresh processes and must give the same outcome
+		divergences := 0
+		{
+			type conf struct {
+				key string
+				ok  bool
+			}
+			ch := make(chan conf, len(viol))
+			sem := make(chan struct{}, nw)
+			for k, v := range viol {
+				k, r := k, v.Replay.(replay)
+				go func() {
+					sem <- struct{}{}
+					defer func() { <-sem }()
+					o := opByName(r.Op)
+					cs := byOp[r.Op]
+					idx := -1
+					for i, c := range cs {
+						if c.Expr == r.Expr {
+							idx = i
+						}
+					}
+					first := gores[r.Op][idx]
+					same := true
+					for rep := 0; rep < 4 && same; rep++ {
+						g := runOperator(o, len(cs), idx, lim, env.Deadline.Add(time.Minute))[idx]
+						if g.Kind == "env_timeout" {
+							continue
+						}
+						if g.Kind != first.Kind && !(g.Kind == "hang" && first.Kind == "memory") && !(g.Kind == "memory" && first.Kind == "hang") {
+							same = false
+						}
+						if g.Kind == "value" && g.Canon != first.Canon {
+							same = false
+						}
+					}
+					ch <- conf{k, same}
+				}()
+			}
+			for range viol {
+				c := <-ch
+				if !c.ok {
+					divergences++
+					delete(viol, c.key)
+				}
+			}
+		}
 		keys := make([]string, 0, len(viol))
 		for k := range viol {
 			keys = append(keys, k)
@@ -827,7 +882,8 @@ func TestCheck(t *testing.T) {
 			"unjudged":                    unjudged,
 			"skipped_after_hangs":         classes["unjudged-skipped"],
 			"discarded_env_timeout":       classes["unjudged-env-timeout"],
-			"divergences":                 0,
+			"divergences":                 divergences,
+			"witness_reruns_per_key":      4,
 			"universe_values_checked_tlc": len(uni),
 			"not_covered":                 "operators the compiler inlines as Go (/\\, \\/, =>, IF, CASE); values deeper than the listed universe; SelectElement (not a TLA+ operator, see C10)",
 		}
